@@ -668,9 +668,12 @@ pub fn differential_variants(tcp: bool, steps: &[Step]) -> Vec<(String, bool, St
         let wall = std::time::Instant::now();
         let near = observe(tcp, &steps, wall);
         out.push(("time base at the wall clock".to_string(), near == reference, first_diff(&reference, &near)));
-        if let Some(past) = wall.checked_sub(Duration::from_secs(3600)) {
-            let o = observe(tcp, &steps, past);
-            out.push(("time base at the wall clock".to_string(), o == reference, first_diff(&reference, &o)));
+        for back in [3_601u64, 86_401] {
+            // (only as far back as the platform's monotonic clock can represent)
+            if let Some(past) = wall.checked_sub(Duration::from_secs(back)) {
+                let o = observe(tcp, &steps, past);
+                out.push(("time base at the wall clock".to_string(), o == reference, first_diff(&reference, &o)));
+            }
         }
         (Vec::new(), out, None)
     }));
@@ -756,7 +759,7 @@ fn differential(s: &Node, acc: &mut Acc) {
             });
         }
     }
-    acc.outcome("history replayed under 9 variants");
+    acc.outcome("history replayed under 8-10 variants");
 }
 
 pub fn replay(prop: &str, rp: &Value) -> Vec<Violation> {
